@@ -41,3 +41,75 @@ def post_is_formatting_valid(r):
 
 def post_is_formatting_parsable(r):
     return r.result == fmt_flags_expected(r.old_self, 'parsable')
+
+
+# ------------------------------------------------------------------------------------------ S1: rgb / color256 helpers
+def clamp255(x):
+    if x < 0:
+        return 0
+    if x > 255:
+        return 255
+    return x
+
+
+def comp_intro(component_name):
+    if component_name == 'BACKGROUND':
+        return 48
+    if component_name == 'UNDERLINE' or component_name == 'DOUBLE_UNDERLINE':
+        return 58
+    return 38
+
+
+def post_rgb_settings(r):
+    """three components are clamped to 0..255; a single 24-bit value is split into r, g, b; the component selects
+    38 / 48 / 58 and the underline forms also switch (double) underline on"""
+    if r.g is None:
+        x = r.r_or_rgb
+        rr = (x // 65536) % 256
+        gg = (x // 256) % 256
+        bb = x % 256
+    else:
+        rr = clamp255(r.r_or_rgb)
+        gg = clamp255(r.g)
+        bb = clamp255(r.b)
+    exp = []
+    name = r.component.name
+    if name == 'UNDERLINE':
+        exp.append('4')
+    if name == 'DOUBLE_UNDERLINE':
+        exp.append('21')
+    exp.append(';'.join([str(comp_intro(name)), '2', str(rr), str(gg), str(bb)]))
+    return texts(r.result) == exp
+
+
+def raises_rgb(r):
+    if r.r_or_rgb is None:
+        return True
+    return (r.g is None) != (r.b is None)
+
+
+def post_color256_settings(r):
+    exp = []
+    name = r.component.name
+    if name == 'UNDERLINE':
+        exp.append('4')
+    if name == 'DOUBLE_UNDERLINE':
+        exp.append('21')
+    exp.append(';'.join([str(comp_intro(name)), '5', str(r.val)]))
+    return texts(r.result) == exp
+
+
+def post_result_settings_parsable(r):
+    """results for in-range arguments are valid and parsable"""
+    for s in r.result:
+        if not parsable_spec(str(s)):
+            return False
+    return True
+
+
+def post_str_is_to_str(r):
+    return r.result == r.old_self.to_str()
+
+
+def post_format_is_to_str(r):
+    return r.result == r.old_self.to_str(r.spec)
